@@ -39,7 +39,7 @@ REF_LEVELS = ('dawgie.V_REF', 'dawgie.SV_REF', 'dawgie.ALG_REF')
 
 GROW = ('add', 'append', 'insert', 'extend', 'update', 'set', '__ior__', 'setdefault', 'appendleft')
 NODE_INSERT = ('add', 'append', 'insert', 'extend')  # xml Element child insertion API (+ Node.add)
-KEEP_ON_RETURN = ('op', 'store', 'yield', 'loop-done')
+KEEP_ON_RETURN = ('op', 'store', 'yield', 'loop-done', 'test', 'handler')  # path facts a helper hands back to its caller
 
 # ---------------------------------------------------------------------------
 # terms
@@ -70,7 +70,14 @@ def T_elem(it):
     while True:
         if it[0] == 'coll' and len(it[1]) == 1:
             (v, guards), = it[1]
-            return ('pick', v, guards)  # element of a local list that only ever received v (under the recorded tests)
+            # element of a local list that only ever received v (under the recorded tests)
+            return ('pick', v, guards) if guards else v
+        if it[0] == 'comp' and it[1] in ('list', 'set', 'gen') and len(it[3]) == 1 and it[3][0][1] and it[2] == T_elem(it[3][0][0]):
+            # [c for c in X if p(c) if q(c)]: an element of X that satisfies the predicates
+            x = it[2]
+            for pred in it[3][0][1]:
+                x = ('sel', x, pred)
+            return x
         if it[0] == 'comp' and it[1] in ('list', 'set', 'gen') and all(not ifs for _i, ifs in it[3]):
             return it[2]  # every element of the comprehension has the form of its element expression
         if (
@@ -261,7 +268,7 @@ class Scope:
             return ('unop', type(e.op).__name__, v)
         if isinstance(e, ast.Compare):
             if len(e.ops) == 1:
-                return ('cmp', type(e.ops[0]).__name__, self.term(e.left, loc), self.term(e.comparators[0], loc))
+                return norm_cmp(type(e.ops[0]).__name__, self.term(e.left, loc), self.term(e.comparators[0], loc))
             return ('cmpchain', tuple(type(o).__name__ for o in e.ops), tuple(self.term(x, loc) for x in [e.left] + e.comparators))
         if isinstance(e, ast.BinOp):
             return ('binop', type(e.op).__name__, self.term(e.left, loc), self.term(e.right, loc))
@@ -291,6 +298,22 @@ class Scope:
         if isinstance(e, ast.Starred):
             return ('star', self.term(e.value, loc))
         return ('top', type(e).__name__)
+
+
+_FLIP = {'Lt': 'Gt', 'Gt': 'Lt', 'LtE': 'GtE', 'GtE': 'LtE', 'Eq': 'Eq', 'NotEq': 'NotEq'}
+
+
+def norm_cmp(op, left, right):
+    """canonical membership: L.count(x) == 0 / < 1  ->  x not in L;  L.count(x) > 0 / != 0 / >= 1, 0 < L.count(x)  ->  x in L"""
+    if op in _FLIP and left[0] == 'const' and right[0] != 'const':
+        op, left, right = _FLIP[op], right, left
+    m = mcall(left)
+    if m and m[1] == 'count' and len(m[2]) == 1 and not m[3] and right[0] == 'const' and right[1] in (0, 1) and type(right[1]) is int:
+        n = right[1]
+        verdict = {('Eq', 0): 'NotIn', ('LtE', 0): 'NotIn', ('Lt', 1): 'NotIn', ('NotEq', 0): 'In', ('Gt', 0): 'In', ('GtE', 1): 'In'}.get((op, n))
+        if verdict:
+            return ('cmp', verdict, m[2][0], m[0])
+    return ('cmp', op, left, right)
 
 
 def single_return(func):
@@ -406,13 +429,52 @@ class World:
         callee, selft = self.callee_func(f)
         if callee is not None and callee.qname == TRIM_FN:
             return T_call(T_sym(TRIM_FN), args, kws)  # self.trim(..) / Construct.trim(..): same static function
+        if callee is not None and callee.qname == TASK_NAME:
+            return T_call(T_sym(TASK_NAME), args, kws)  # anchored naming function: kept symbolic whatever its body looks like
         if callee is not None and callee.qname not in scope.stack and len(scope.stack) < 8 and callee.module.name.startswith('dawgie'):
             rv = single_return(callee)
             if rv is not None:
                 env = self.bind(callee, selft, args, kws, scope)
                 if env is not None:
                     return Scope(self, callee, env, scope.stack + (callee.qname,)).term(rv, {})
+            elif callee.module.name in REGION and not is_generator(callee) and callee.qname != CONSTRUCT + '._trim_trees':
+                # (_trim_trees is an anchor of the property record: R-C09-4 reads `at = _trim_trees(2)` symbolically and checks its body once)
+                env = self.bind(callee, selft, args, kws, scope)
+                if env is not None:
+                    sm = self.summary(callee, env, scope.stack)
+                    if sm is not None:
+                        return sm
         return T_call(f, args, kws)
+
+    def summary(self, callee, env, stack):
+        """value returned by a multi-statement helper: it is executed symbolically on its own; usable when every return
+        gives the same term (an empty collection being subsumed by the filled one) and every loop that fills a local
+        collection does so on every path of every iteration and never stops early"""
+        key = (callee.qname, frozenset(env.items()))
+        cache = self.__dict__.setdefault('_summaries', {})
+        if key in cache:
+            return cache[key]
+        cache[key] = None
+        w = World(self.prog, fold=self.fold)
+        w.namedtuples = self.namedtuples
+        it = Interp(w, callee, env, stack + (callee.qname,), ())
+        out = it.run(callee.node, (frozenset(), frozenset()))
+        if out.normal:
+            return None  # may fall off the end
+        fills = lambda e: any(t[0] == 'op' and t[1] in ('append', 'add') and local_collection(t[2]) for t in e.data['new'])
+        loops = {}
+        for e in w.events:
+            if e.func is callee and e.kind in ('iter_end', 'loop_broken'):
+                loops.setdefault(e.data['lid'], []).append(e)
+        for evs in loops.values():
+            if any(fills(e) for e in evs) and not all(e.kind == 'iter_end' and fills(e) for e in evs):
+                return None
+        rets = {e.data['value'] for e in w.events if e.kind == 'ret' and e.func is callee}
+        if any(r[0] == 'coll' for r in rets):
+            rets = {r for r in rets if r not in (('list', ()), ('set', ()), T_call(T_sym('external:set')), T_call(T_sym('external:list')))}
+        if len(rets) == 1:
+            cache[key] = next(iter(rets))
+        return cache[key]
 
     # ------------------------------------------------------------------- runs
     def default_env(self, func):
@@ -442,10 +504,32 @@ class World:
         return res
 
 
+def truth_core(t):
+    """strip truthiness wrappers: bool(x), len(x), len(x) > 0, len(x) == 0, not x  ->  (x, polarity)"""
+    positive = True
+    while True:
+        if t[0] == 'not':
+            t, positive = t[1], not positive
+            continue
+        if t[0] == 'call' and t[1] in (T_sym('external:bool'), T_sym('external:len')) and len(t[2]) == 1 and not t[3]:
+            t = t[2][0]
+            continue
+        if t[0] == 'cmp' and is_const(t[3], 0) and t[2][0] == 'call' and t[2][1] == T_sym('external:len') and len(t[2][2]) == 1:
+            if t[1] in ('Gt', 'NotEq'):
+                t = t[2][2][0]
+                continue
+            if t[1] in ('Eq', 'LtE'):
+                t, positive = t[2][2][0], not positive
+                continue
+        return t, positive
+
+
 def interesting_test(t):
     """tests whose outcome is remembered on the path (kept few: every remembered test doubles the path set)"""
     if t[0] == 'cmp' and t[1] in ('In', 'NotIn'):
         return True
+    if t[0] == 'cmp' and t[1] in ('Is', 'IsNot', 'Eq', 'NotEq') and is_const(t[3]) and t[3][1] is None and get_call(t[2]):
+        return True  # <table>.get(key) is None
     if t[0] == 'cmp' and t[1] in ('Eq', 'NotEq') and all(x[0] == 'call' and x[1] == T_sym(TRIM_FN) for x in t[2:4]):
         return True  # "same algorithm / same task?" comparisons of trimmed names
     if t[0] == 'cmp' and t[1] in ('Eq', 'NotEq') and any(x[0] == 'attr' and x[2] == 'tag' for x in t[2:4]):
@@ -588,7 +672,13 @@ class Interp(Flow):
         return out
 
     def on_test(self, e, st):
-        t = self.term(e, st)
+        t, positive = truth_core(self.term(e, st))
+        if not positive:
+            tr, fa = self._test(t, st)
+            return fa, tr
+        return self._test(t, st)
+
+    def _test(self, t, st):
         v = None
         if t[0] == 'const':
             v = bool(t[1])
@@ -607,6 +697,21 @@ class Interp(Flow):
         if interesting_test(t):
             return ((st[0], st[1] | {('test', t, True)}),), ((st[0], st[1] | {('test', t, False)}),)
         return (st,), (st,)
+
+    def _s_Try(self, s, states):
+        self._try_bodies = getattr(self, '_try_bodies', {})
+        for h in s.handlers:
+            self._try_bodies[id(h)] = s.body
+        return super()._s_Try(s, states)
+
+    def on_handler(self, h, st):
+        names = [norm(h.type)] if h.type is not None and not isinstance(h.type, ast.Tuple) else ([norm(x) for x in h.type.elts] if h.type is not None else ['*'])
+        body = getattr(self, '_try_bodies', {}).get(id(h), [])
+        subs = frozenset(self.term(n, st) for b in body for n in ast.walk(b) if isinstance(n, ast.Subscript) and isinstance(n.ctx, ast.Load))
+        out = st
+        for n in names:
+            out = (out[0], out[1] | {('handler', n.rsplit('.', 1)[-1], subs)})
+        return (out,)
 
     def on_return(self, node, st):
         self.emit('ret', node, {'value': self.term(node.value, st) if node.value is not None else T_const(None)}, st[1])
@@ -658,15 +763,24 @@ class Interp(Flow):
         if env is None:
             return (st,)
         self.w.funcs[callee.qname] = callee
-        sub = Interp(self.w, callee, env, self.stack + (callee.qname,), self.ctx + ((self.f.qname, norm(call)),))
-        out = sub.run(callee.node, (frozenset(), tags))
-        self.visited += sub.visited
-        res = set()
-        for kind, sts in (('fallthrough', out.normal), ('return', out.ret)):
-            for s2 in sts:
-                tg = sub.close_loops(s2[1], callee.node)
-                self.w.events.append(Event('fn_exit', callee, callee.node, {'exit': kind, 'root': False}, tg, sub.ctx, env))
-                res.add((st[0], tags | {x for x in tg if x[0] in KEEP_ON_RETURN}))
+        ctx2 = self.ctx + ((self.f.qname, norm(call)),)
+        # the same activation (call site, arguments, path facts) is met again in every round of the enclosing loop
+        # fix-points: its events are already in the log, only the resulting path facts are needed
+        ck = (callee.qname, ctx2, frozenset(env.items()), tags)
+        cache = self.w.__dict__.setdefault('_inlined', {})
+        kept = cache.get(ck)
+        if kept is None:
+            sub = Interp(self.w, callee, env, self.stack + (callee.qname,), ctx2)
+            out = sub.run(callee.node, (frozenset(), tags))
+            self.visited += sub.visited
+            kept = set()
+            for kind, sts in (('fallthrough', out.normal), ('return', out.ret)):
+                for s2 in sts:
+                    tg = sub.close_loops(s2[1], callee.node)
+                    self.w.events.append(Event('fn_exit', callee, callee.node, {'exit': kind, 'root': False}, tg, sub.ctx, env))
+                    kept.add(frozenset(x for x in tg if x[0] in KEEP_ON_RETURN))
+            cache[ck] = kept
+        res = {(st[0], tags | k) for k in kept}
         return res or (st,)
 
     # comprehension variables are visible to the calls inside the comprehension
@@ -797,6 +911,14 @@ def ref_loop(el):
     return None
 
 
+def get_call(t):
+    """<x>.get(<key>) with any key term -> (x, key)"""
+    m = mcall(t)
+    if m and m[1] == 'get' and len(m[2]) == 1 and not m[3]:
+        return m[0], m[2][0]
+    return None
+
+
 def get_attrkey(t):
     """<x>.get('k'[, d]) -> (x, 'k')"""
     m = mcall(t)
@@ -832,14 +954,27 @@ def feedback_derived(t):
 
 
 def _feedback_derived(t):
-    for s in subterms(t):
-        m = mcall(s)
+    """recursive with a per-node cache: sub-terms are shared between the terms of one analysis"""
+    if not isinstance(t, tuple) or not t:
+        return False
+    hit = _FBD.get(id(t))
+    if hit is not None and hit[0] is t:
+        return hit[1]
+    r = False
+    if isinstance(t[0], str):
+        m = mcall(t) if t[0] == 'call' else None
         if m and m[1] == 'feedback' and not m[2] and not m[3]:
-            return True
-        gk = get_attrkey(s)
-        if gk and gk[1] == 'feedback':
-            return True
-    return False
+            r = True
+        else:
+            gk = get_attrkey(t) if t[0] == 'call' else None
+            r = bool(gk and gk[1] == 'feedback')
+    if not r:
+        for x in t:
+            if isinstance(x, tuple) and _feedback_derived(x):
+                r = True
+                break
+    _FBD[id(t)] = (t, r)
+    return r
 
 
 class Facts:
@@ -918,13 +1053,34 @@ class Facts:
             if t[0] == 'op' and t[1] == 'setdefault' and t[2] == self.FLAT and len(t[3]) == 2 and t[3][1][0] == 'call' and t[3][1][1] == T_sym(NODE) and t[3][1][2]:
                 yield t[3][0], t[3][1], True
 
+    def tested_keys(self, tags):
+        """keys whose presence in FLAT was tested on the path"""
+        out = set()
+        for t in tags:
+            if t[0] == 'test' and t[1][0] == 'cmp':
+                gc = get_call(t[1][2])
+                out.add(gc[1] if gc and gc[0] == self.FLAT else t[1][2])
+        return {k for k in out if self.absent_test(tags, k) is not None}
+
     def absent_test(self, tags, key):
         """the path established that <key> is not yet in FLAT: True / False (known present) / None (not tested)"""
+        tables = (self.FLAT, T_call(T_attr(self.FLAT, 'keys')), T_call(T_sym('external:list'), (self.FLAT,)), T_call(T_sym('external:set'), (self.FLAT,)))
         for t in tags:
-            if t[0] == 'test' and t[1][0] == 'cmp' and t[1][2] == key and t[1][3] in (self.FLAT, T_call(T_attr(self.FLAT, 'keys'))):
-                if t[1][1] == 'NotIn':
+            if t[0] == 'handler' and t[1] == 'KeyError' and any(x[0] == 'sub' and x[1] == self.FLAT and x[2] == key for x in t[2]):
+                return True  # accepted idiom: try: FLAT[key] ... except KeyError: create
+            if t[0] != 'test' or t[1][0] != 'cmp':
+                continue
+            c = t[1]
+            if c[2] == key and c[3] in tables:
+                if c[1] == 'NotIn':
                     return t[2]
-                if t[1][1] == 'In':
+                if c[1] == 'In':
+                    return not t[2]
+            gc = get_call(c[2])
+            if gc and gc[0] == self.FLAT and gc[1] == key and is_const(c[3]) and c[3][1] is None:  # FLAT.get(key) is None
+                if c[1] in ('Is', 'Eq'):
+                    return t[2]
+                if c[1] in ('IsNot', 'NotEq'):
                     return not t[2]
         return None
 
@@ -1105,12 +1261,7 @@ def rule1(ctx, rep, fx):
                             pc_problems.append((e, f'node created for the referenced value: {b}'))
                     else:
                         pc_problems.append((e, f'a node is created in the reference loop under {show(ckey)}, which is not the name (task_name(ref.factory), ref.impl.name(), ref.item.name(), ref.feat) of the referenced value'))
-                if not pkey_created:
-                    known_present = any(
-                        t[0] == 'test' and t[1][0] == 'cmp' and dotted_fields(t[1][2]) == pfields and fx.absent_test(e.tags, t[1][2]) is False for t in e.tags
-                    )
-                    if not known_present:
-                        pc_problems.append((e, 'a path neither creates the referenced node nor knows it to be present'))
+                # (no 'exists or is created' obligation: a path that reaches FLAT[name].add(...) has looked the node up successfully)
             key = f'{e0.func.qname}:edge[{kind}]'
             if problems:
                 pe, msg = problems[0]
@@ -1141,22 +1292,17 @@ def rule1(ctx, rep, fx):
                 if not okd:
                     d_problems.append((e, 'a path through the walk over the values does not run the reference loop of the algorithm (edges missing for that value)'))
                 # child node creation
-                ctests = [t for t in e.tags if t[0] == 'test' and t[1][0] == 'cmp' and t[1][3] in (fx.FLAT, T_call(T_attr(fx.FLAT, 'keys'))) and (cn := child_name(t[1][2])) and cn[0] == A]
-                created = False
                 for ckey, ctor, guarded in fx.creations(e):
                     cn = child_name(ckey)
                     if cn is None or cn[0] != A:
                         c_problems.append((e, f'the node of the value is named {show(ckey)}, not (task_name(factory) | bot._name()).alg.name().sv.name().key of the walk'))
                         continue
-                    created = True
                     if not guarded:
                         c_problems.append((e, 'the node of the value is (re)created without testing that it is absent: a node created earlier by a reference, and its edges, are replaced'))
                     if ctor[2][0] != ckey:
                         c_problems.append((e, f'node stored under {show(ckey)} is named {show(ctor[2][0])}'))
                     for b in check_attrib(ctor, A, info['factory']):
                         c_problems.append((e, f'node created for the value: {b}'))
-                if not created and not any(fx.absent_test(e.tags, t[1][2]) is False for t in ctests):
-                    c_problems.append((e, 'a path neither creates the node of the value nor knows it to be present'))
                 # root registration
                 rtests = [t for t in e.tags if t[0] == 'test' and (m := mcall(t[1])) and m[0] == A and not m[2] and not m[3] and m[1] in ACCESSORS + ('feedback',)]
                 radds = [t for t in e.tags if t[0] == 'op' and t[2] == fx.ROOTS]
@@ -1479,7 +1625,7 @@ def rule4(ctx, rep, fx):
         SELF = fx.SELF
         stores = {}
         for e in fx.w.events:
-            if e.kind == 'store' and e.data['kind'] == 'attr' and e.data['base'] == SELF and e.func is fx.init:
+            if e.kind == 'store' and e.data['kind'] == 'attr' and e.data['base'] == SELF:
                 stores.setdefault(e.data['key'][1], []).append(e)
         for g in ('at', 'svt', 'tt', 'vt'):
             r.instance()
@@ -1523,7 +1669,7 @@ def rule4(ctx, rep, fx):
         L = ('param', tf.qname, tf.params()[1]) if len(tf.params()) == 2 else None
         tcalls = {}
         for e in w.events:
-            if e.kind == 'call' and e.func is tf:
+            if e.kind == 'call':
                 fm = e.data['f']
                 if fm[0] == 'attr' and fm[2] == 'trim' and fm[1] == T_elem(fx.ROOTS):
                     tcalls[norm(e.node)] = e
@@ -1550,7 +1696,7 @@ def rule4(ctx, rep, fx):
                 okr, det = True, 'returns [root.trim(known, length) for root in roots]'
             elif isinstance(e.node.value, ast.Name):
                 name = e.node.value.id
-                ends = [x for x in w.events if x.kind in ('iter_end', 'loop_broken') and x.func is tf and x.data['elem'] == T_elem(fx.ROOTS)]
+                ends = [x for x in w.events if x.kind in ('iter_end', 'loop_broken') and x.data['elem'] == T_elem(fx.ROOTS)]
                 bad = [x for x in ends if x.kind == 'loop_broken' or not any(
                     t[0] == 'op' and t[1] in ('append', 'add') and len(t[3]) == 1 and mcall(t[3][0]) and mcall(t[3][0])[1] == 'trim' and mcall(t[3][0])[0] == T_elem(fx.ROOTS) for t in x.tags
                 )]
@@ -1585,7 +1731,7 @@ def rule4(ctx, rep, fx):
         r.instance()
         probs = []
         child_call = T_call(T_attr(T_elem(S), 'trim'), (K, LL))
-        ends = [e for e in w2.events if e.kind in ('iter_end', 'loop_broken') and e.func is nt and e.data['elem'] == T_elem(S)]
+        ends = [e for e in w2.events if e.kind in ('iter_end', 'loop_broken') and e.data['elem'] == T_elem(S)]
         for e in ends:
             if e.kind == 'loop_broken':
                 probs.append((e, f'the loop over the children can stop early ({e.data["how"]})'))
@@ -1598,7 +1744,7 @@ def rule4(ctx, rep, fx):
             else:
                 probs.append((e, f'a child is not copied as short_node.add(child.trim(known, length)) (insertions seen: {[show(t[2]) + "." + t[1] + "(" + ", ".join(show(a) for a in t[3]) + ")" for t in ops]})'))
         for e in w2.events:
-            if e.kind == 'call' and e.func is nt and e.data['f'][0] == 'attr' and e.data['f'][2] in NODE_INSERT and e.data['f'][1] in (SN, S):
+            if e.kind == 'call' and e.data['f'][0] == 'attr' and e.data['f'][2] in NODE_INSERT and e.data['f'][1] in (SN, S):
                 if e.data['args'] != (child_call,) and not any(feedback_derived(x) for x in e.data['args']):  # feedback: R-C09-2
                     probs.append((e, f'{norm(e.node)} inserts something other than a trimmed child of the value node'))
         visitors = T_call(T_attr(SN, 'get'), (T_const('visitors'),))
@@ -1642,7 +1788,7 @@ def rule4(ctx, rep, fx):
                 if names and cs:
                     consts.add(cs[0].value)
         r.check(
-            consts <= {levels['at']} and bool(consts),
+            consts <= {levels['at']},
             f'{nt.qname}:algorithm-level-attributes',
             where(nt),
             f'scheduling attributes and ancestry are set for length == {levels["at"]} (the algorithm level, = at)',
@@ -1663,7 +1809,7 @@ def _parents_copied(w2, nt, S, K, LL, SN):
     stored = set()
     grown = set()
     for e in w2.events:
-        if e.kind != 'call' or e.func is not nt:
+        if e.kind != 'call':
             continue
         f, a = e.data['f'], e.data['args']
         if f[0] != 'attr':
@@ -1703,10 +1849,20 @@ def rule6(ctx, rep, fx):
         parent_loops = 0
         if N is None:
             probs.append((None, '_parents does not take the list of nodes to visit'))
-        ends = [e for e in w.events if e.func is pf and e.kind in ('iter_end', 'loop_broken')] if N else []
+        ends = [e for e in w.events if e.kind in ('iter_end', 'loop_broken')] if N else []
 
         def base(c):
-            return c[1] if c[0] == 'pick' else c
+            while c[0] in ('pick', 'sel'):
+                c = c[1]
+            return c
+
+        def guards_of(c):
+            """tests an element went through before it got into the iterated collection (append under if / filter / comprehension if)"""
+            out = set()
+            while c[0] in ('pick', 'sel'):
+                out |= set(c[2]) if c[0] == 'pick' else {('test', c[2], True)}
+                c = c[1]
+            return out
 
         def same_alg(tests, c):
             """-> (True if the path knows child and node are the same algorithm, list of tests on the child that are not understood)"""
@@ -1741,7 +1897,7 @@ def rule6(ctx, rep, fx):
                 if e.kind == 'loop_broken':
                     probs.append((e, f'a loop over the children can stop early ({e.data["how"]})'))
                     continue
-                tests = set(t for t in e.tags if t[0] == 'test') | (set(c[2]) if c[0] == 'pick' else set())
+                tests = set(t for t in e.tags if t[0] == 'test') | guards_of(c)
                 same, foreign = same_alg(tests, c)
                 if foreign:
                     probs.append((e, f'the parent edge of a child depends on {show(foreign[0])}; only "child of another algorithm" (trim(child.tag, {at_level}) != trim(node.tag, {at_level})) may filter'))
@@ -1834,7 +1990,7 @@ def _ancestry_facts(prog, rep, r, fx):
     key = f'{af.qname}:own-closure'
     writes = {}
     for e in w.events:
-        if e.kind == 'call' and e.func is af and e.data['f'][0] == 'attr' and e.data['f'][2] in GROW:
+        if e.kind == 'call' and e.data['f'][0] == 'attr' and e.data['f'][2] in GROW:
             gk = get_attrkey(e.data['f'][1])
             if gk and gk[1] == 'ancestry':
                 writes[norm(e.node)] = (e, gk[0])
@@ -1852,7 +2008,7 @@ def _ancestry_facts(prog, rep, r, fx):
             probs.append((e, f"the written set is {show(a[0]) if a else '?'}; expected the tags of a set seeded with the same node's own parents"))
         own_names = (T_attr(D, 'tag'), ('sub', D[1], T_const(0)) if D[0] == 'sub' else None)
         # frontier loops: every iteration extends the sets by the parents of the frontier element
-        loops = [x for x in w.events if x.func is af and x.kind in ('iter_end', 'loop_broken') and any(t[0] == 'in' and t[2] == D or (t[0] == 'in' and D[0] == 'sub' and t[2] == D[1]) for t in x.tags)]
+        loops = [x for x in w.events if x.kind in ('iter_end', 'loop_broken') and any(t[0] == 'in' and t[2] == D or (t[0] == 'in' and D[0] == 'sub' and t[2] == D[1]) for t in x.tags)]
         seen = 0
         growing = {x.data['lid'] for x in loops if any(t[0] == 'op' and t[1] in ('update', '__ior__', 'add') for t in x.data['new'])}
         for x in loops:
